@@ -158,24 +158,28 @@ theorem denote_loginEnable (D : Device σ) (pass : Str) : denote (loginEnableP D
 def noDev : Device Unit := { step := fun _ _ => ((), []) }
 
 /-- the regenerated path set of a Go function -/
-def gen (f : String) : List SkelPath := (NA.Gen.IosSkel.paths.lookup f).getD [([.atom (.step "?missing")], false)]
+def gen (f : String) : List CPath := (NA.Gen.IosSkel.paths.lookup f).getD [([.atom 0], true)]
+
+/-- the atoms of the regenerated side -/
+abbrev tbl : List Atom := NA.Gen.IosSkel.atomTable
 
 /-- **the tie.** The path set of `ApplyCommands` regenerated from the source — helpers of the package
 inlined by the translator, wherever they live and however they are wrapped — is the path set of the
 program whose semantics is the model. -/
 theorem paths_applyCommands (D : Device σ) (cs : List Str) :
-    sameSet (gen "ApplyCommands") (paths (applyCommandsP D cs)) = true := by
-  have h : paths (applyCommandsP D cs) = paths (applyCommandsP noDev []) := rfl
-  rw [h]; decide +kernel
+    sameSet tbl (gen "ApplyCommands") (paths (applyCommandsP D cs)) = true := by
+  have h : shape (applyCommandsP D cs) = shape (applyCommandsP noDev []) := rfl
+  unfold paths; rw [h]; decide +kernel
 
 /-- the same for the login / enable dialogue (`LoginEnable`, closure `waitPrompt` inlined) -/
 theorem paths_loginEnable (D : Device σ) (pass : Str) :
-    sameSet (gen "LoginEnable") (paths (loginEnableP D pass)) = true := by
-  have h : paths (loginEnableP D pass) = paths (loginEnableP noDev []) := rfl
-  rw [h]; decide +kernel
+    sameSet tbl (gen "LoginEnable") (paths (loginEnableP D pass)) = true := by
+  have h : shape (loginEnableP D pass) = shape (loginEnableP noDev []) := rfl
+  unfold paths; rw [h]; decide +kernel
 
 /-- the comparison is not vacuous: the sets are non-empty and a different set is rejected -/
-example : gen "ApplyCommands" ≠ [] ∧ sameSet (gen "ApplyCommands") (gen "LoginEnable") = false := by decide +kernel
+example : gen "ApplyCommands" ≠ [] ∧ sameSet tbl (gen "ApplyCommands") (paths (loginEnableP noDev [])) = false := by
+  decide +kernel
 
 def obligations : List Lean.Name :=
   [``denote_applyCommands, ``denote_cmd, ``denote_check, ``denote_sendReloadCmd, ``denote_cancelReload,
